@@ -14,7 +14,7 @@ import (
 func init() {
 	register(stream{
 		name: "polipld",
-		rule: "policy.FromIPLD followed by Policy.ToIPLD on IPLD nodes: well-formed policies of depth ≤ 3 from the statement grammar (all eleven operators, selectors that print differently from their source such as \".a.?\" and \".a???\"), and malformed shapes obtained from them by replacing a subtree with a random value, changing an operator string, dropping or adding a tuple element, using out-of-range integers, invalid selectors and invalid patterns; the same nodes are also sent through DAG-JSON (FromDagJson). Compared: accept/reject and the written-back node. Non-trivial = every case (each exercises the decoder). Distinct = distinct protocol lines.",
+		rule: "policy.FromIPLD followed by Policy.ToIPLD on IPLD nodes: well-formed policies of depth ≤ 3 from the statement grammar (all eleven operators, selectors that print differently from their source such as \".a.?\" and \".a???\"), and malformed shapes obtained from them by replacing a subtree with a random value, changing an operator string, dropping or adding a tuple element, using out-of-range integers, invalid selectors and invalid patterns; the same nodes are also sent through DAG-JSON (FromDagJson). Compared: accept/reject and the written-back node. Added later: patterns with runs of stars next to escapes (**, \\**, a**b, *\\**), quoted field names with ?? inside, and the DAG-JSON leg for every node without floats (bytes and links included). Non-trivial = every case (each exercises the decoder). Distinct = distinct protocol lines.",
 		run:  runPolIpldStream,
 		eval: evalPolIpld,
 		cmp:  cmpImplSpec,
